@@ -124,4 +124,54 @@ def splitAux {α} [DecidableEq α] (sep : α) : List α → List α → List (Li
 
 def split {α} [DecidableEq α] (sep : α) (s : List α) : List (List α) := splitAux sep [] s
 
+
+/-! ### observations of a result other than its text -/
+
+/-- `np.where(m, a, b)` on flat arrays: needs equal lengths -/
+def whereFlat {α} (m : List Bool) (a b : List α) : Option (List α) :=
+  if m.length = a.length ∧ b.length = a.length then
+    some ((m.zip (a.zip b)).map (fun p => if p.1 then p.2.1 else p.2.2))
+  else none
+
+/-- `v != c` -/
+def neChar {α} [DecidableEq α] (c : α) (v : Val α) : Val Bool := (eqChar c v).map (fun b => !b)
+
+/-- `len(v)` -/
+def vlen {α} : Val α → Option Nat
+  | .flat l => some l.length
+  | .rag r => some r.length
+  | .scalar _ => none
+
+inductive Obs (α : Type)
+  | eqStr (s : List α)                       -- `v == "text"` / `v == other_array` (flat, same length)
+  | neChar (c : α)                           -- `v != 'c'`
+  | whereWith (m : List Bool) (w : List α)   -- `np.where(m, v, w)`
+  | len
+
+inductive ObsRes (α : Type)
+  | bools (v : Val Bool)
+  | boolList (l : List Bool)
+  | text (l : List α)
+  | num (n : Nat)
+deriving DecidableEq, Repr
+
+def Obs.map {α β} (f : α → β) : Obs α → Obs β
+  | .eqStr s => .eqStr (s.map f)
+  | .neChar c => .neChar (f c)
+  | .whereWith m w => .whereWith m (w.map f)
+  | .len => .len
+
+def ObsRes.map {α β} (f : α → β) : ObsRes α → ObsRes β
+  | .bools v => .bools v
+  | .boolList l => .boolList l
+  | .text l => .text (l.map f)
+  | .num n => .num n
+
+def observe {α} [DecidableEq α] : Obs α → Val α → Option (ObsRes α)
+  | .eqStr s, v => (eqStr s v).map .boolList
+  | .neChar c, v => some (.bools (neChar c v))
+  | .whereWith m w, .flat l => (whereFlat m l w).map .text
+  | .whereWith _ _, _ => none
+  | .len, v => (vlen v).map .num
+
 end C07
